@@ -242,6 +242,9 @@ fn lane(args: &[String]) -> i32 {
     let kind = arg(args, "--kind").unwrap_or_else(|| "mem".to_string());
     let n: usize = arg(args, "--n").and_then(|s| s.parse().ok()).unwrap_or(10);
     let seed: u64 = arg(args, "--seed").and_then(|s| s.parse().ok()).unwrap_or(1);
+    if let Some(f) = arg(args, "--fuel").and_then(|s| s.parse().ok()) {
+        engine::set_fuel_limit(f);
+    }
     engine::install_panic_hook();
     let mut obs = Obs::new();
     let mut violations = vec![];
